@@ -436,6 +436,197 @@ theorem partial_eq_inverse {p q r : ℝ} (hp : 0 < p) (hq : 0 < q) (hr : 0 < r) 
   rw [a01, a00, a11, Complex.normSq_neg, Complex.ofReal_re, Complex.ofReal_re]
   congr 1; ring
 
+
+/-! ### partial coherence ≤ 1 for segment-averaged (Gram) spectra -/
+
+/-- pointwise expansion of the residual products -/
+theorem resid_expand (n : ℕ) (a b r : ℕ → ℂ) (α β : ℂ) :
+    ∑ s ∈ range n, (a s - α * r s) * conj (b s - β * r s)
+      = (∑ s ∈ range n, a s * conj (b s)) - conj β * (∑ s ∈ range n, a s * conj (r s))
+        - α * conj (∑ s ∈ range n, b s * conj (r s)) + α * conj β * (∑ s ∈ range n, r s * conj (r s)) := by
+  rw [map_sum, mul_sum, mul_sum, mul_sum, ← sum_sub_distrib, ← sum_sub_distrib, ← sum_add_distrib]
+  refine sum_congr rfl fun s _ => ?_
+  simp only [map_sub, map_mul, Complex.conj_conj]
+  ring
+
+/-- the determinant-type inequality behind `partial ≤ 1`: Cauchy–Schwarz for the residuals of x and
+    y after regression on r -/
+theorem gram_partial_ineq (n : ℕ) (a b r : ℕ → ℂ)
+    (hR : 0 < ∑ s ∈ range n, Complex.normSq (r s)) :
+    Complex.normSq ((∑ s ∈ range n, a s * conj (b s)) * ((∑ s ∈ range n, Complex.normSq (r s) : ℝ) : ℂ)
+        - (∑ s ∈ range n, a s * conj (r s)) * conj (∑ s ∈ range n, b s * conj (r s)))
+      ≤ ((∑ s ∈ range n, Complex.normSq (a s)) * (∑ s ∈ range n, Complex.normSq (r s))
+            - Complex.normSq (∑ s ∈ range n, a s * conj (r s)))
+        * ((∑ s ∈ range n, Complex.normSq (b s)) * (∑ s ∈ range n, Complex.normSq (r s))
+            - Complex.normSq (∑ s ∈ range n, b s * conj (r s))) := by
+  set R := ∑ s ∈ range n, Complex.normSq (r s)
+  set P := ∑ s ∈ range n, Complex.normSq (a s)
+  set Q := ∑ s ∈ range n, Complex.normSq (b s)
+  set sxy := ∑ s ∈ range n, a s * conj (b s)
+  set sxr := ∑ s ∈ range n, a s * conj (r s)
+  set syr := ∑ s ∈ range n, b s * conj (r s)
+  have hRc : ((R : ℝ) : ℂ) ≠ 0 := by exact_mod_cast hR.ne'
+  have hrr : ∑ s ∈ range n, r s * conj (r s) = ((R : ℝ) : ℂ) := sum_mul_conj_eq n r
+  have haa : ∑ s ∈ range n, a s * conj (a s) = ((P : ℝ) : ℂ) := sum_mul_conj_eq n a
+  have hbb : ∑ s ∈ range n, b s * conj (b s) = ((Q : ℝ) : ℂ) := sum_mul_conj_eq n b
+  set α : ℂ := sxr / (R : ℂ)
+  set β : ℂ := syr / (R : ℂ)
+  have hcs := cs_range n (fun s => a s - α * r s) (fun s => b s - β * r s)
+  -- the three residual sums
+  have e1 : ∑ s ∈ range n, (a s - α * r s) * conj (b s - β * r s)
+      = (sxy * (R : ℂ) - sxr * conj syr) / (R : ℂ) := by
+    rw [resid_expand, hrr]
+    simp only [α, β, map_div₀, Complex.conj_ofReal]
+    field_simp
+    ring
+  have e2 : ∑ s ∈ range n, Complex.normSq (a s - α * r s) = (P * R - Complex.normSq sxr) / R := by
+    have h := resid_expand n a a r α α
+    rw [hrr, haa, sum_mul_conj_eq] at h
+    have : ((∑ s ∈ range n, Complex.normSq (a s - α * r s) : ℝ) : ℂ)
+        = (((P * R - Complex.normSq sxr) / R : ℝ) : ℂ) := by
+      rw [h]
+      simp only [α, map_div₀, Complex.conj_ofReal]
+      push_cast
+      rw [← Complex.mul_conj sxr]
+      field_simp
+      ring
+    exact_mod_cast this
+  have e3 : ∑ s ∈ range n, Complex.normSq (b s - β * r s) = (Q * R - Complex.normSq syr) / R := by
+    have h := resid_expand n b b r β β
+    rw [hrr, hbb, sum_mul_conj_eq] at h
+    have : ((∑ s ∈ range n, Complex.normSq (b s - β * r s) : ℝ) : ℂ)
+        = (((Q * R - Complex.normSq syr) / R : ℝ) : ℂ) := by
+      rw [h]
+      simp only [β, map_div₀, Complex.conj_ofReal]
+      push_cast
+      rw [← Complex.mul_conj syr]
+      field_simp
+      ring
+    exact_mod_cast this
+  rw [e1, e2, e3, Complex.normSq_div, Complex.normSq_ofReal] at hcs
+  have hR2 : 0 < R * R := mul_pos hR hR
+  have := mul_le_mul_of_nonneg_right hcs hR2.le
+  have hne : R ≠ 0 := hR.ne'
+  calc Complex.normSq (sxy * (R : ℂ) - sxr * conj syr)
+      = Complex.normSq (sxy * (R : ℂ) - sxr * conj syr) / (R * R) * (R * R) := by field_simp
+    _ ≤ (P * R - Complex.normSq sxr) / R * ((Q * R - Complex.normSq syr) / R) * (R * R) := this
+    _ = _ := by field_simp
+
+/-- **partial coherence ≤ 1** for spectra that are (a common positive multiple of) sums over
+    segments / tapers of X·conj Y — what Welch and multitaper estimates are — with the cross-spectra
+    in the orientation the formula needs -/
+theorem partial_le_one (n : ℕ) (a b r : ℕ → ℂ) {c : ℝ} (hc : 0 < c)
+    (hP : 0 < ∑ s ∈ range n, Complex.normSq (a s)) (hQ : 0 < ∑ s ∈ range n, Complex.normSq (b s))
+    (hR : 0 < ∑ s ∈ range n, Complex.normSq (r s))
+    (h1 : Complex.normSq (∑ s ∈ range n, a s * conj (r s))
+        ≠ (∑ s ∈ range n, Complex.normSq (a s)) * (∑ s ∈ range n, Complex.normSq (r s)))
+    (h2 : Complex.normSq (∑ s ∈ range n, b s * conj (r s))
+        ≠ (∑ s ∈ range n, Complex.normSq (b s)) * (∑ s ∈ range n, Complex.normSq (r s))) :
+    (coherencePartialSpec ((c : ℂ) * ∑ s ∈ range n, a s * conj (b s))
+        ((c * ∑ s ∈ range n, Complex.normSq (a s) : ℝ) : ℂ) ((c * ∑ s ∈ range n, Complex.normSq (b s) : ℝ) : ℂ)
+        ((c : ℂ) * ∑ s ∈ range n, a s * conj (r s)) (conj ((c : ℂ) * ∑ s ∈ range n, b s * conj (r s)))
+        ((c * ∑ s ∈ range n, Complex.normSq (r s) : ℝ) : ℂ)).re ≤ 1 := by
+  set R := ∑ s ∈ range n, Complex.normSq (r s)
+  set P := ∑ s ∈ range n, Complex.normSq (a s)
+  set Q := ∑ s ∈ range n, Complex.normSq (b s)
+  set sxy := ∑ s ∈ range n, a s * conj (b s)
+  set sxr := ∑ s ∈ range n, a s * conj (r s)
+  set syr := ∑ s ∈ range n, b s * conj (r s)
+  have hcc : c * c ≠ 0 := (mul_pos hc hc).ne'
+  rw [partial_closed_form (mul_pos hc hP) (mul_pos hc hQ) (mul_pos hc hR)]
+  · rw [Complex.ofReal_re]
+    have hin := gram_partial_ineq n a b r hR
+    have hx : 0 ≤ P * R - Complex.normSq sxr := sub_nonneg.mpr (cs_range n a r)
+    have hy : 0 ≤ Q * R - Complex.normSq syr := sub_nonneg.mpr (cs_range n b r)
+    apply div_le_one_of_le₀
+    · have e : (c : ℂ) * sxy * ((c * R : ℝ) : ℂ) - (c : ℂ) * sxr * conj ((c : ℂ) * syr)
+          = ((c * c : ℝ) : ℂ) * (sxy * ((R : ℝ) : ℂ) - sxr * conj syr) := by
+        simp only [map_mul, Complex.conj_ofReal]; push_cast; ring
+      rw [e, Complex.normSq_mul, Complex.normSq_ofReal, Complex.normSq_mul, Complex.normSq_mul,
+        Complex.normSq_ofReal]
+      calc c * c * (c * c) * Complex.normSq (sxy * ((R : ℝ) : ℂ) - sxr * conj syr)
+          ≤ c * c * (c * c) * ((P * R - Complex.normSq sxr) * (Q * R - Complex.normSq syr)) :=
+            mul_le_mul_of_nonneg_left hin (by positivity)
+        _ = _ := by ring
+    · rw [Complex.normSq_mul, Complex.normSq_mul, Complex.normSq_ofReal]
+      have : (c * P * (c * R) - c * c * Complex.normSq sxr) * (c * Q * (c * R) - c * c * Complex.normSq syr)
+          = c * c * (c * c) * ((P * R - Complex.normSq sxr) * (Q * R - Complex.normSq syr)) := by ring
+      rw [this]
+      exact mul_nonneg (by positivity) (mul_nonneg hx hy)
+  · rw [Complex.normSq_mul, Complex.normSq_ofReal]
+    intro h; apply h1
+    have : c * c * Complex.normSq sxr = c * c * (P * R) := by rw [h]; ring
+    exact mul_left_cancel₀ hcc this
+  · rw [Complex.normSq_mul, Complex.normSq_ofReal]
+    intro h; apply h2
+    have : c * c * Complex.normSq syr = c * c * (Q * R) := by rw [h]; ring
+    exact mul_left_cancel₀ hcc this
+
+
+/-! ### multitaper coherence (MTCoherenceAnalyzer) -/
+
+theorem mtW2_eq (w : List (List ℂ)) (nt k : ℕ) :
+    mtW2 w nt k = ((∑ t ∈ range nt, Complex.normSq (wAt w t k) : ℝ) : ℂ) := by
+  unfold mtW2
+  rw [sumRange_eq]; push_cast
+  exact sum_congr rfl fun t _ => by simp only [c_mul, c_abs, abs_mul_abs]
+
+/-- **multitaper coherence ≤ 1**: Cauchy–Schwarz over the tapers, any weights (fixed or adaptive),
+    any bin; the one-sided doubling and the weight normalisations cancel -/
+theorem mt_coherence_le_one (N nt : ℕ) (tx ty wx wy : List (List ℂ)) (k : ℕ) :
+    (mtCoherence N nt tx ty wx wy k).re ≤ 1 := by
+  unfold mtCoherence mtCross mtAuto
+  simp only [c_div, c_mul, c_abs, c_re, c_conj, abs_mul_abs, sumRange_eq, mtW2_eq]
+  set a : ℕ → ℂ := fun t => wAt wx t k * getK (tx.getD t []) k
+  set b : ℕ → ℂ := fun t => wAt wy t k * getK (ty.getD t []) k
+  set Dx := ∑ t ∈ range nt, Complex.normSq (wAt wx t k)
+  set Dy := ∑ t ∈ range nt, Complex.normSq (wAt wy t k)
+  have hDx : 0 ≤ Dx := sum_nonneg fun _ _ => Complex.normSq_nonneg _
+  have hDy : 0 ≤ Dy := sum_nonneg fun _ _ => Complex.normSq_nonneg _
+  obtain ⟨d, hd, hdbl⟩ : ∃ d : ℝ, 0 < d ∧ (mtDouble N k : ℂ) = (d : ℂ) := by
+    unfold mtDouble; split_ifs
+    · exact ⟨2, by norm_num, by simp⟩
+    · exact ⟨1, by norm_num, by simp⟩
+  rw [hdbl, sum_mul_conj_eq nt a, sum_mul_conj_eq nt b, c_sqrt_ofReal hDx, c_sqrt_ofReal hDy]
+  set P := ∑ t ∈ range nt, Complex.normSq (a t)
+  set Q := ∑ t ∈ range nt, Complex.normSq (b t)
+  have hP : 0 ≤ P := sum_nonneg fun _ _ => Complex.normSq_nonneg _
+  have hQ : 0 ≤ Q := sum_nonneg fun _ _ => Complex.normSq_nonneg _
+  have hcs := cs_range nt a b
+  simp only [← Complex.ofReal_div, ← Complex.ofReal_mul, Complex.ofReal_re]
+  have hsq : √Dx * √Dy * (√Dx * √Dy) = Dx * Dy := by
+    rw [mul_mul_mul_comm, Real.mul_self_sqrt hDx, Real.mul_self_sqrt hDy]
+  rw [Complex.normSq_mul, Complex.normSq_div, Complex.normSq_ofReal, Complex.normSq_ofReal, hsq]
+  apply div_le_one_of_le₀
+  · calc Complex.normSq (∑ t ∈ range nt, a t * conj (b t)) / (Dx * Dy) * (d * d)
+        ≤ P * Q / (Dx * Dy) * (d * d) := by
+          apply mul_le_mul_of_nonneg_right _ (mul_self_nonneg d)
+          exact div_le_div_of_nonneg_right hcs (mul_nonneg hDx hDy)
+      _ = P / Dx * d * (Q / Dy * d) := by
+          rw [← div_mul_div_comm]; ring
+  · exact mul_nonneg (mul_nonneg (div_nonneg hP hDx) hd.le) (mul_nonneg (div_nonneg hQ hDy) hd.le)
+
+/-- **multitaper self-coherence = 1** (intended diagonal of MTCoherenceAnalyzer.coherence) -/
+theorem mt_self_coherence_one (N nt : ℕ) (tx wx : List (List ℂ)) (k : ℕ)
+    (hD : 0 < ∑ t ∈ range nt, Complex.normSq (wAt wx t k))
+    (hP : 0 < ∑ t ∈ range nt, Complex.normSq (wAt wx t k * getK (tx.getD t []) k)) :
+    mtCoherence N nt tx tx wx wx k = 1 := by
+  unfold mtCoherence mtCross mtAuto
+  simp only [c_div, c_mul, c_abs, c_re, c_conj, abs_mul_abs, sumRange_eq, mtW2_eq]
+  set a : ℕ → ℂ := fun t => wAt wx t k * getK (tx.getD t []) k
+  set Dx := ∑ t ∈ range nt, Complex.normSq (wAt wx t k)
+  obtain ⟨d, hd, hdbl⟩ : ∃ d : ℝ, 0 < d ∧ (mtDouble N k : ℂ) = (d : ℂ) := by
+    unfold mtDouble; split_ifs
+    · exact ⟨2, by norm_num, by simp⟩
+    · exact ⟨1, by norm_num, by simp⟩
+  rw [hdbl, sum_mul_conj_eq nt a, c_sqrt_ofReal hD.le]
+  set P := ∑ t ∈ range nt, Complex.normSq (a t)
+  simp only [← Complex.ofReal_div, ← Complex.ofReal_mul, Complex.ofReal_re, Complex.normSq_ofReal]
+  rw [Real.mul_self_sqrt hD.le, ← Complex.ofReal_one]
+  congr 1
+  have h1 : P / Dx * d ≠ 0 := (mul_pos (div_pos hP hD) hd).ne'
+  exact div_self (mul_ne_zero h1 h1)
+
 /-! ### what `coherence_partial` passes today: a counterexample
 
 x = (3/5)·i·r + noise₁, y = (3/5)·i·r + noise₂ (unit-power r and noises): all of the x–y coupling
